@@ -445,6 +445,9 @@ func (s *Sim) CrashAfterYields(group, n int, onFreeze func()) {
 	s.onFreeze[group] = onFreeze
 }
 
+// OnFreeze registers f to run at the instant group crashes (CrashNow).
+func (s *Sim) OnFreeze(group int, f func()) { s.onFreeze[group] = f }
+
 // CrashNow freezes the group of the running task at this very point (used by
 // harness seams such as storage calls made by the system under test).
 func CrashNow() {
